@@ -34,6 +34,11 @@ def points(tier):
         for payload, packing in combos:
             out.append({'host': host, 'cert': cert, 'insecure': insecure, 'optout': optout, 'cache': cache,
                         'payload': payload, 'packing': packing})
+    # CONNECT to an IP literal whose Host header names what the (wrong-name) origin certificate is valid for:
+    # the certificate still does not name the CONNECT host
+    for host, cache, payload in itertools.product(('127.0.0.1', '[::1]'), ('cold', 'warm'), ('get',) if tier == 'quick' else PAYLOADS):
+        out.append({'host': host, 'cert': 'wrongname', 'insecure': False, 'optout': False, 'cache': cache,
+                    'payload': payload, 'packing': 'whole', 'host_header': 'certname'})
     return out
 
 
@@ -119,7 +124,7 @@ def run(tier):
             points_not_reproduced=cstats.get('points_not_reproduced', 0))
     rep.add(states=n, transitions=n * 2, traces_validated_against_impl=n, live_runs=n, harness_errors=herr,
             rule='CONNECT host {DNS name, IPv4 literal, IPv6 literal} x origin certificate {trusted, self-signed, wrong name, '
-                 'expired} x --insecure-tls-interception x plugin list {none, opt-out only, opt-out then bystander, bystander then opt-out, bystander only} x certificate cache {cold, warm} = 240 points; '
+                 'expired} x --insecure-tls-interception x plugin list {none, opt-out only, opt-out then bystander, bystander then opt-out, bystander only} x certificate cache {cold, warm} = 240 points (+ IP-literal targets whose CONNECT Host header names what a wrong-name certificate is valid for); '
                  'thorough additionally x inner payload {GET, chunked POST, two requests, 600 kB down + 600 kB up} x inner packing {whole, split in header, '
                  'split in body, one TLS record cut into three TCP segments, ClientHello coalesced with the CONNECT head (opted-out tunnels)}; quick rotates payload/packing over the 240 points')
     rep.assumptions.append('handshakes are blocking calls inside the SUT: configurations and inputs are enumerated, '
